@@ -118,9 +118,9 @@ def walk_two_vertices(v0, v1, layers):
                                                 kind="linear")
     for value in range(v0[axis], v1[axis], delta):
         if axis == 0:
-            position = (value, interpolation(value))
+            position = (value, int(interpolation(value)))
         else:
-            position = (interpolation(value), value)
+            position = (int(interpolation(value)), value)
 
         vertices_to_return.update(get_layer_elements(position, layers))
     return vertices_to_return
